@@ -33,11 +33,14 @@ CLAIMED.update({
                 "differential run (all 1024 bit lengths, chains at the depth limit, DAGs, 4 construction routes). "
                 "'Equal exactly when the hashes are equal' is also proved structurally: two well-formed trees (ordinary, "
                 "and exotic at the top level) with equal hashes, or whose built cells compare equal, are the same tree or "
-                "exhibit a SHA-256 collision.",
+                "exhibit a SHA-256 collision. The clause 'the recomputed representation hash agrees with the cached one' "
+                "is proved for every constructed cell of every spec-valid tree of ordinary, pruned-branch, library, "
+                "Merkle-proof and Merkle-update cells, whatever its level (C01_repr_agrees_all).",
         "design_ref": "DESIGN.md 4.1",
         "technique": "Coq proof by induction on the cell tree (custom nested induction), padding/descriptor arithmetic for "
-                     "all lengths; correspondence by extracted OCaml model incl. Gallina SHA-256",
-        "note": "13 theorems closed under the global context; SHA-256 is the executable Gallina function, theorems hold "
+                     "all lengths; loop invariant of the per-level hash loop with the last iteration characterised (masks 0..7 by "
+                     "finite case analysis); correspondence by extracted OCaml model incl. Gallina SHA-256",
+        "note": "14 theorems closed under the global context; SHA-256 is the executable Gallina function, theorems hold "
                 "for any hash function.",
     },
     "C06": {
@@ -78,11 +81,14 @@ CLAIMED.update({
         "text": "Machine-checked proof that the label kind chosen equals the reference rule of dict.cpp for every label "
                 "length and remaining key length (no bound), that labels are written as HmLabel encodings, that the tree "
                 "built is the canonical Patricia tree, and that the parser model decodes every valid tree whatever label "
-                "kinds it uses and skips pruned subtrees. Differential run incl. non-canonical and augmented trees.",
+                "kinds it uses and skips pruned subtrees, and that the augmented parser model (parse_hashmap_aug) decodes "
+                "every valid HashmapAug tree likewise, returning the extras in post-order and the same keys as the plain "
+                "reading. Differential run incl. non-canonical and augmented trees.",
         "design_ref": "DESIGN.md 4.10",
         "technique": "Coq proof (unbounded label arithmetic by lia, induction on valid trees); correspondence by extracted "
                      "OCaml model against an independent Python encoder",
-        "note": "5 theorems closed under the global context. The augmented parser is covered by correspondence only.",
+        "note": "9 theorems closed under the global context (3 about the augmented parser, over Spec/HashmapAug.v; extras are "
+                "modelled as fields of a fixed bit width).",
     },
 })
 
